@@ -273,9 +273,61 @@ class CharTable(Stream):
         return replies[0]
 
 
+class BeyondLatin1(Stream):
+    """Strings with characters beyond Latin-1 (the model's alphabet ends at code point 255): decomposed / compatibility forms,
+    combining marks, CJK, astral characters, zero-width and bidi characters - quoted, then tokenized stand-alone and inside
+    a document.  Oracle only: the tokenizer treats every character above 255 like an ordinary letter and changes nothing."""
+    name = "beyond_latin1"
+    cluster = "Tok"
+    PIECES = ["e\u0301", "\u212b", "\u2126", "A\u030a", "\ufb01", "\u65e5\u672c", "\U0001f600", "\u200b", "\u202e", "\u0130", "\u03c2",
+              "\u00e9", "\u00df", "\u1e9e", "\u2028", "\u0085", "\ufeff", "x", " ", "'", '"', "\\", "\n", "#", ";", "$"]
+
+    def __init__(self, ctx):
+        super().__init__(ctx)
+        self.fp = import_freephil()
+        from freephil import tokenizer
+        self.tk = tokenizer
+
+    def corpus(self):
+        return [[q, s] for q in STYLES for s in ("d_min 1.5 \u212b", "caf\u0065\u0301", "\u2126 \u03a9", "\u65e5\u672c\u8a9e 'x'")]
+
+    def cases(self, rng, tier):
+        for _ in range(800 if tier == "quick" else 12000):
+            s = "".join(rng.choice(self.PIECES) for _ in range(rng.randint(1, 8)))
+            yield [rng.choice(sorted(STYLES)), s]
+
+    def impl(self, case):
+        q, s = case
+        quoted = str(self.tk.word(value=s, quote_token=STYLES[q]))
+        a = tok_obs(lambda: self.fp.tokenize_value_literal(quoted, None))
+        try:
+            t = self.fp.parse("a = " + quoted + "\nb = 1\n")
+            b = ["ok", [[o.name, [[w.value, w.quote_token] for w in o.words]] for o in t.objects]]
+        except Exception as e:  # noqa
+            b = ["err", exc_class(e)]
+        return [a, b]
+
+    def requests(self, case, o):
+        return []
+
+    def model(self, case, replies, o):
+        return o
+
+    def prop(self, case, o):
+        q, s = case
+        if o[0][0] != "ok" or [w[0] for w in o[0][1]] != [s] or [w[1] for w in o[0][1]] != [q]:
+            return "tokenize_value_literal(quote(%r, style %s)) gave %r" % (s, STYLES[q], o[0])
+        if o[1] != ["ok", [["a", [[s, STYLES[q]]]], ["b", [["1", None]]]]]:
+            return "in a document the quoted %r (style %s) came back as %r" % (s, STYLES[q], o[1])
+        return None
+
+    def tag(self, case, o):
+        return "ok" if self.prop(case, o) is None else "fail"
+
+
 SPEC = {
     "clusters": ["Tok", "Parse"],
-    "streams": [CharTable, ValueLiteral, InDocument, InDocumentParse],
+    "streams": [CharTable, ValueLiteral, InDocument, InDocumentParse, BeyondLatin1],
     "rule": "exhaustive strings up to the length bound over the 12-class alphabet of the property x 4 quote styles "
             "(value literal; in-document with 5 tails), plus seeded random strings to length 300 over the class alphabet "
             "and over all 256 code points; distinct = distinct (style, string[, tail]); non-trivial = non-empty string",
